@@ -1,5 +1,6 @@
 import RedisVerif.Model.NMap
 import RedisVerif.Model.Crdt
+import RedisVerif.Model.HashBytes
 
 /-
   M8 (anti-entropy half) — model of the Merkle digest and of one digest-driven sync exchange.
@@ -96,8 +97,79 @@ def pinnedStream : ValueStream := fun v =>
 def canonicalStream : ValueStream := fun v =>
   serStamp v.ts ++ (serCrdt v.crdt ++ (serOptCounts v.vc ++ (serOptNat v.expiry ++ serOptNat v.rf)))
 
+/-! ### the BYTES `canonical_hash` writes into the `DefaultHasher`
+
+  `canonicalStream` above is the shape of the stream (one word per hashed item); `byteStream` is
+  the stream itself, byte for byte, as Rust's `Hash` impls produce it (`Model/HashBytes.lean`):
+  what `sip13` of it returns is compared with the real `KeyDigest::new(..).value_hash` for every
+  value of every run.  `kb` decodes a string code (set element, hash field name) into its bytes
+  (`HB.keyStr` in the driver).  Differences to the word stream that matter:
+  * a `String` is hashed as its bytes followed by `0xff` — NOT length-prefixed: unambiguous only
+    because a UTF-8 string never contains `0xff` (`StrSafe`);
+  * `Vec<&String>` / the OR-set elements / the hash fields are `sort_unstable`d by the strings'
+    BYTES (`String: Ord`), not in the (length-first) order of the model's key codes. -/
+
+open HB in
+/-- `lww(r, h)`: `r.value.as_ref().map(|v| v.as_bytes()).hash(h);
+    (r.timestamp.time, r.timestamp.replica_id.0, r.tombstone).hash(h)` -/
+def bLww (r : Lww) : List Nat :=
+  (match r.value with
+    | none => le64 0
+    | some b => le64 1 ++ (le64 b.length ++ b))
+  ++ (le64 r.ts.time ++ (le64 r.ts.rid ++ [if r.tomb then 1 else 0]))
+
+open HB in
+/-- the sorted tag list of one OR-set element: `Vec<(u64, u64)>` of `(replica_id, sequence)`; a
+    tag code is `replica_id * 2^64 + sequence`, the canonical set is in code order =
+    `(replica_id, sequence)` order -/
+def bTags (t : NSet) : List Nat :=
+  le64 t.length ++ t.flatMap fun c => le64 (c / 2 ^ 64) ++ le64 (c % 2 ^ 64)
+
+/-- entries keyed by a string, `sort_unstable`d by the string's bytes -/
+def sortByStr {β : Type} (kb : Nat → List Nat) (m : List (Nat × β)) : List (List Nat × β) :=
+  HB.isort (fun a b => HB.bytesLe a.1 b.1) (m.map fun p => (kb p.1, p.2))
+
+/-- one string-keyed entry: the string (`0xff`-terminated), then its payload -/
+def strEntry {β : Type} (g : β → List Nat) (p : List Nat × β) : List Nat := (p.1 ++ [255]) ++ g p.2
+
+open HB in
+def bCrdt (kb : Nat → List Nat) : Crdt → List Nat
+  | .lww r => 0 :: bLww r
+  | .gcounter c => 1 :: pairsBytes c
+  | .pncounter p n => 2 :: (pairsBytes p ++ pairsBytes n)
+  | .gset s =>
+    let strs := isort bytesLe (s.map kb)
+    3 :: (le64 strs.length ++ strs.flatMap fun b => b ++ [255])
+  | .orset e nx =>
+    let es := sortByStr kb e
+    4 :: ((le64 es.length ++ es.flatMap (strEntry bTags)) ++ pairsBytes nx)
+  | .hash h =>
+    let fs := sortByStr kb h
+    5 :: (le64 fs.length ++ fs.flatMap (strEntry bLww))
+
+open HB in
+/-- the bytes `canonical_hash(value, h)` writes: `(time, replica).hash; <tag>u8.hash; <content>;
+    vector_clock.is_some().hash; [counts(vc)]; (expiry_ms, replication_factor).hash` -/
+def byteStream (kb : Nat → List Nat) : ValueStream := fun v =>
+  le64 v.ts.time ++ (le64 v.ts.rid ++ (bCrdt kb v.crdt ++
+    ((match v.vc with
+      | none => [0]
+      | some m => 1 :: pairsBytes m) ++ (optU64 v.expiry ++ optU8 v.rf))))
+
+/-- the three uses of `DefaultHasher` as ONE byte-stream hash `sip`:
+    * `key.hash(h)` → the key's bytes and `0xff`;
+    * `canonical_hash(value, h)` → the value hasher is `sip` itself (on `byteStream`);
+    * `from_digests` / `combine` → every `u64` word as 8 little-endian bytes -/
+def sipHasher (sip : List Nat → Nat) (kb : Nat → List Nat) : Hasher :=
+  { key := fun k => sip (HB.strBytes kb k)
+    val := sip
+    words := fun ws => sip (ws.flatMap HB.le64) }
+
 /-- the value stream of the current tree -/
-def currentStream : ValueStream := canonicalStream
+def currentStream : ValueStream := byteStream HB.keyStr
+
+/-- the hasher of the current tree: SipHash-1-3 with the zero key (`DefaultHasher::new()`) -/
+def currentHasher : Hasher := sipHasher Sip.sip13 HB.keyStr
 
 /-- `KeyDigest::new(key, value)` -/
 def keyDigest (H : Hasher) (vs : ValueStream) (k : Nat) (v : RV) : KeyDigest :=
